@@ -11,7 +11,19 @@ parse(new, edited_old) vs parse(new, None) on the real runtime, decided by the L
 import hashlib
 import json
 import os
-from checklib import sh, parse_kv_line
+import re
+from checklib import sh, parse_kv_line, REPO
+
+
+def gate_variant():
+    """Source anchor: does ts_parser__reuse_node contain the column/range repair
+    (fixes/C01-column-token-range-change.diff)?  Selects the variant of the Lean port."""
+    try:
+        src = open(os.path.join(REPO, "lib", "src", "parser.c")).read()
+    except OSError:
+        return 0
+    m = re.search(r"static Subtree ts_parser__reuse_node\(.*?\n}\n", src, re.S)
+    return 1 if m and "ts_subtree_depends_on_column(result)" in m.group(0) else 0
 
 
 def run_pipeline(ctx, explorer, cunit, driver, args, tag):
@@ -40,7 +52,9 @@ def run_pipeline(ctx, explorer, cunit, driver, args, tag):
         if line.startswith("spec "):
             _, cid, rest = line.rstrip("\n").split(" ", 2)
             specs[cid] = rest
-    rc, out = sh("cat %s %s | %s" % (tables, ops, driver), timeout=3000)
+    var = os.path.join(ctx.workdir, "variant.txt")
+    open(var, "w").write("variant colfix %d\n" % gate_variant())
+    rc, out = sh("cat %s %s %s | %s" % (var, tables, ops, driver), timeout=3000)
     lines = [l for l in out.split("\n") if l.strip()]
     return specs, lines, msg
 
@@ -201,7 +215,11 @@ def run(ctx):
                 payload["spec"] = small
                 payload["shrink_trials"] = trials
             ctx.violation("judge", "incremental parse differs from from-scratch parse: " + kv["judge"], payload,
-                          fingerprint={"lang": lang, "clause": clause})
+                          fingerprint={"lang": lang, "clause": clause,
+                                       # diagnosis used by known_findings/C01.json: the included ranges changed between the
+                                       # two parses and a column-dependent node of the old tree met the reuse gate
+                                       "ranges_changed": int(kv.get("rangediffs", "0") or 0) > 0,
+                                       "column_dependent_candidate": kv.get("coldep") == "1"})
         if kv.get("corr", "ok") != "ok":
             corr_bad += 1
             ctx.violation("corr", "reuse gate model and the real parser's log disagree: " + kv["corr"],
@@ -213,6 +231,7 @@ def run(ctx):
         # generator quality gate: the run must exercise reuse and error-free comparisons
         ctx.oblige("run:coverage-floor", evals >= 1000 and tot["clean"] * 5 >= evals and tot["reused_inner"] >= evals // 2,
                    "evals=%d clean=%d reused_inner=%d" % (evals, tot["clean"], tot["reused_inner"]))
+    ctx.coverage["gate_variant"] = "with column/range repair" if gate_variant() else "pinned (no column/range test)"
     ctx.coverage.update({
         "evaluations": evals, "distinct_nontrivial": len(distinct),
         "rule": "one evaluation = one step of an edit history: Tree::edit on the current tree, incremental parse with it (logger on) and "
